@@ -32,7 +32,7 @@ pub fn check() -> Check {
         rule: "Random sessions with handler scripts and Cli::write closures of 0-5 calls (write_str, writeln_str, uwrite! and write! with string and with char arguments; a handler may also print and then reject the command) whose texts mix printable words, LF, CR LF, empty and multi-byte pieces in any split (including a split inside CR LF), at random points (cursor anywhere), short-write sink on and off. \
                Oracle on bytes: between the submit's CR LF and the next prompt the sink receives the concatenated text with every LF as CR LF plus one CR LF iff the text is non-empty and does not end with LF (compared modulo runs of CR before LF); \
                oracle on the terminal emulator: the pieces each start at column 0 on their own rows, then the prompt (for Cli::write: prompt + line with the cursor at its old position) on the row below; the edited line and cursor are unchanged by Cli::write. \
-               Non-trivial = the text contains an LF that is not its last byte, or the write happens with the cursor inside the line, or the text is split inside a CR LF; distinct by (calls, line, cursor). Evaluations count every API call (input byte, application write, prompt change) that was followed by the oracle, plus one per session; a coverage-guided campaign (libFuzzer + ASan, 16 processes, same oracle inside the target) searches the same session space and what it keeps is re-run and classified here.",
+               Non-trivial = the text contains an LF that is not its last byte, or the write happens with the cursor inside the line, or the text is split inside a CR LF; distinct by (calls, line, cursor). Evaluations count every API call (input byte, application write, prompt change) that was followed by the oracle, plus one per session; a coverage-guided campaign (libFuzzer + ASan, 16 processes, same oracle inside the target) searches the same session space and what it keeps is re-run and classified here. Output scripts also print through Writer::write_list_element and write_title: the text such a call stands for is observed (the call alone followed by a bar, through Cli::write on a fresh Cli), and the call must frame like write_str of that text; the layout itself is not judged.",
         assumptions: &[
             "CR not followed by LF, control/escape bytes and wide characters in application output are left open and not generated",
             "framing at Enter is compared only when the handler ran (no parse error raised before it, no help request); when the handler prints and then returns a parse error, the library's single `error:` line must follow the completed output on a line of its own (its wording is not pinned)",
